@@ -23,7 +23,11 @@ RULE = ("cases = (tool, exact rational samples, parameters, input route) drawn "
         "clip active); unwrap_wide builds sequences move by move on int / plain Fraction / Q "
         "(jumps beyond 2**53, jumps on or a hair off a half-step tie); long_inputs describes "
         "inputs of thousands of samples as (seed, palette) and checks maverage / amdf against "
-        "sliding exact window sums; distinct = distinct case hash")
+        "sliding exact window sums and envelope against the one-pole recursion in double precision; clip, zcross and "
+        "accumulate also get int / plain Fraction samples (types that do not absorb a float) with float / int / "
+        "Fraction parameters and samples on or a hair beside the limits / thresholds; clip's input may be the Stream "
+        "an earlier clip call returned, changed in place since; one maverage / amdf object serves several signals; "
+        "distinct = distinct case hash")
 ASSUMPTIONS = [
   "samples are exact rationals (Q absorbs the library's float constants exactly); "
   "float behaviour is only sampled through envelope.rms (sqrt) with tolerance 1e-12",
@@ -41,6 +45,14 @@ ASSUMPTIONS = [
   "when size*n > 40000 (cost); envelope is not run on long inputs (exact denominators grow by 53 bits per sample)",
   "clip: the property fixes idempotence, bounds and (design) identity inside the "
   "limits; ValueError exactly when both limits are given and high < low",
+  "clip given the Stream an earlier clip call returned: what that Stream yields now (after Stream.map / append / "
+  "abs / skip / limit, which work in place) is the input; its expected content is the reference clip of the first "
+  "input followed by the same operations on a list",
+  "accumulate: every strategy is exact on Q, int and plain Fraction samples, except accumulate.z called with its "
+  "default float memory (zero=0.) on plain Fraction / beyond-2**53 int samples, which adds in double precision by "
+  "design of ZFilter: compared within 1e-12*sum|x| there",
+  "long envelope inputs are int samples: library and oracle both work in double precision (tolerance 1e-9 * "
+  "max(1, peak of |x| or x^2), envelope.rms compared by its square)",
 ]
 
 TOL = 1e-12
@@ -60,6 +72,13 @@ def qv(lo=-4, hi=4, den=5):
 def xs(tier, min_size=0, **kw):
   return st.lists(qv(**kw), min_size=min_size,
                   max_size=16 if tier == "quick" else 40)
+
+
+def weighted(*pairs):
+  """one_of with weights: (weight, strategy), ...  (st.one_of drops a strategy object given twice, so repeating
+  an object there does not raise its share)"""
+  idx = [i for i, (w, _) in enumerate(pairs) for _ in range(w)]
+  return st.sampled_from(idx).flatmap(lambda i: pairs[i][1])
 
 
 ROUTES = ["list", "iter", "stream", "gen"]
@@ -165,10 +184,13 @@ def run_maverage(case):
       for i in range(n):
         ga.append(next(sa))
         gb.append(next(sb))
-      for lbl, got_i, ss in (("first", ga, sums), ("second", gb, sums2)):
+      again = pulled(f(feed(x, route), **kw), n, "maverage.%s (third use)" % name)
+      if len(again) != n:
+        raise Violation("maverage.%s(%d) object used a third time: %d outputs for %d inputs" % (name, size, len(again), n))
+      for lbl, got_i, ss in (("first", ga, sums), ("second", gb, sums2), ("first, given again afterwards", again, sums)):
         for i, (g, su) in enumerate(zip(got_i, ss)):
           if not near(g, c * su, tol + Fraction(TOL)) or (exact and g != c * su):
-            raise Violation("maverage.%s(%d) used on two signals read alternately: %s signal, output %d = %r, "
+            raise Violation("maverage.%s(%d) used on two signals read alternately and then again: %s signal, output %d = %r, "
                             "expected %r (x=%r, other=%r, zero=%r)" % (name, size, lbl, i, g, c * su, x, x2, zero))
   if exact:
     ref = outs["deque"]
@@ -189,9 +211,19 @@ def run_maverage(case):
 # --------------------------------------------------------------------------
 # accumulate
 # --------------------------------------------------------------------------
+# samples that do not absorb a float (a float creeping into the sum would show): plain Fractions, and ints
+# around and beyond 2**53 mixed with small ones
+_big = st.one_of(
+  st.integers(-9, 9),
+  st.tuples(st.sampled_from([1, -1]), st.integers(52, 70), st.integers(-3, 3)).map(lambda t: t[0] * 2 ** t[1] + t[2]))
+
+
 def strat_accumulate(tier):
+  n = 16 if tier == "quick" else 40
   return st.fixed_dictionaries(dict(
-    x=st.one_of(xs(tier), xs(tier), st.lists(st.integers(-9, 9), max_size=12)),
+    x=st.one_of(xs(tier), xs(tier), st.lists(st.integers(-9, 9), max_size=12),
+                st.lists(st.fractions(min_value=-4, max_value=4, max_denominator=97), min_size=1, max_size=n),
+                st.lists(_big, min_size=2, max_size=n)),
     zkw=st.sampled_from(["default", "int0", "q0"]), route=_route))
 
 
@@ -212,6 +244,14 @@ def run_accumulate(case):
   for v in x:
     tot += v
     exp.append(tot)
+  tol = Fraction(TOL) * sum((abs(v) for v in x), Fraction(0))
+  if x and all(type(v) is int for v in x):
+    # "int samples": every sample and running sum is a double, so even float arithmetic is exact on them
+    kind = "big int samples" if any(abs(v) >= 2 ** 52 for v in x + exp) else "int samples"
+  elif x and not any(isinstance(v, Q) for v in x):
+    kind = "plain Fraction samples"
+  else:
+    kind = "Q samples"
   for name, call in ACC:
     try:
       got = pulled(call(feed(x, route), kw), n, "accumulate." + name)
@@ -221,10 +261,12 @@ def run_accumulate(case):
       raise Violation("accumulate.%s(%r) raised %s: %s instead of giving the running sums %r"
                       % (name, x, type(e).__name__, e, exp),
                       site="accumulate.%s:%s" % (name, "empty" if not x else "raise"))
-    if len(got) != n or any(g != e for g, e in zip(got, exp)):
+    # the z strategy with its default float memory (zero=0.) adds in double precision when the samples do not
+    # absorb a float: compared within 1e-12 * sum|x| then; everything else is exact
+    floaty = name == "z" and case["zkw"] == "default" and kind in ("plain Fraction samples", "big int samples")
+    if len(got) != n or any(not near(g, e, tol) if floaty else g != e for g, e in zip(got, exp)):
       raise Violation("accumulate.%s(%r) = %r, running sums are %r" % (name, x, got, exp))
-  labels = ["accumulate", "route:" + route,
-            "int samples" if x and all(type(v) is int for v in x) else "Q samples"]
+  labels = ["accumulate", "route:" + route, kind]
   if not x:
     labels.append("empty input")
   return {"nontrivial": n >= 3 and any(v != 0 for v in x[1:]), "labels": labels}
@@ -257,6 +299,28 @@ def run_amdf(case):
                       "is %r (fl(1/size)*sum = %r; x=%r)" % (lag, size, zero, i, g, s / size, c * s, x))
   labels = ["amdf", "zero=0" if zero == 0 else "zero!=0", "route:" + route,
             "lag<size" if lag < size else ("lag=size" if lag == size else "lag>size")]
+  # one amdf(lag, size) object applied to two signals that are alive together and read alternately, then once
+  # more to the first signal: each output stream is the amdf of its own signal
+  if n >= 2:
+    x2 = [v + 1 for v in reversed(x)]
+    d2 = [abs(x2[i] - (x2[i - lag] if i >= lag else zero)) for i in range(n)]
+    sums2 = [window_sum(d2, i, size, zero) for i in range(n)]
+    f = amdf(lag, size)
+    sa, sb = iter(f(feed(x, route), **kw)), iter(f(feed(x2, route), **kw))
+    ga, gb = [], []
+    for i in range(n):
+      ga.append(next(sa))
+      gb.append(next(sb))
+    again = pulled(f(feed(x, route), **kw), n, "amdf (third use)")
+    for lbl, got_i, ss in (("first", ga, sums), ("second", gb, sums2), ("first, given again afterwards", again, sums)):
+      if len(got_i) != n:
+        raise Violation("amdf(%d,%d) object used again: %d outputs for %d inputs" % (lag, size, len(got_i), n))
+      for i, (g, su) in enumerate(zip(got_i, ss)):
+        if (exact and g != c * su) or not near(g, c * su, tol + Fraction(TOL)):
+          raise Violation("one amdf(lag=%d,size=%d) object used on two signals read alternately and then again: "
+                          "%s signal, output %d = %r, expected %r (x=%r, other=%r, zero=%r)"
+                          % (lag, size, lbl, i, g, c * su, x, x2, zero))
+    labels.append("one object, several signals")
   nt = n > max(lag, size) and len(set(d)) > 1
   return {"nontrivial": nt, "labels": labels}
 
@@ -316,10 +380,77 @@ def run_envelope(case):
 # --------------------------------------------------------------------------
 _lim = st.one_of(st.none(), qv(-3, 3), qv(-3, 3), st.just("default"))
 
+# number types of the samples / of the limits.  Q absorbs a float operand exactly; int and plain Fraction
+# do not (Fraction - float is a float), and a float limit is what the documented defaults are.
+_S_T = ["Q", "Q", "Fraction", "Fraction", "int"]
+_L_T = ["Q", "Q", "Fraction", "int", "float", "float"]
+
+# a sample placed on a limit or a hair (1e-17 .. 2**-70: far below double resolution) beside it
+_hair1 = st.tuples(st.sampled_from([1, -1]), st.sampled_from([2, 10]), st.integers(17, 70)).map(
+  lambda t: Fraction(t[0], t[1] ** t[2]))
+_hair = weighted((1, st.just(Fraction(0))), (3, _hair1))
+
+
+def cast_lim(v, t):
+  """exact value v as a limit of number type t; 'float' only when v is a double, 'int' only when integral"""
+  if v is None or isinstance(v, str):
+    return v
+  f = Fraction(v)
+  if t == "float":
+    return float(f) if Fraction(float(f)) == f else f
+  return cast(f, t)
+
+
+# what may happen, in place, to the Stream an earlier clip call returned before it is clipped again
+_gain = st.sampled_from([-3, -2, -1, 2, 3, Q(1, 2), Q(5, 4)])
+
+
+def _inplace(el):
+  more = st.lists(el, min_size=1, max_size=5)
+  return st.one_of(
+    st.tuples(st.just("map"), _gain, qv(-2, 2)), st.tuples(st.just("map"), _gain, qv(-2, 2)),
+    st.tuples(st.just("append"), more), st.tuples(st.just("append"), more.map(list)),
+    st.tuples(st.just("abs")),
+    st.tuples(st.just("skip"), st.integers(1, 3)),
+    st.tuples(st.just("limit"), st.integers(0, 12)))
+
+
+@st.composite
+def _clip_case(draw, tier):
+  s_t, l_t = draw(st.sampled_from(_S_T)), draw(st.sampled_from(_L_T))
+  low, high = draw(_lim), draw(_lim)
+  if l_t == "float":     # limits that are doubles: halves, eighths, sixteenths
+    low = low if low is None or isinstance(low, str) else Q(round(Fraction(low) * 16), 16)
+    high = high if high is None or isinstance(high, str) else Q(round(Fraction(high) * 16), 16)
+  if not (low is None or high is None or isinstance(low, str) or isinstance(high, str)) and high < low \
+     and draw(st.sampled_from([True, True, False])):
+    low, high = high, low      # keep the refused combination (high < low) at a modest share
+  low, high = cast_lim(low, l_t), cast_lim(high, l_t)
+  lo = Fraction(-1) if isinstance(low, str) else (None if low is None else Fraction(low))
+  hi = Fraction(1) if isinstance(high, str) else (None if high is None else Fraction(high))
+  near_lim = st.tuples(st.sampled_from([v for v in (lo, hi) if v is not None] or [Fraction(0)]), _hair).map(sum)
+  el = weighted((2, qv()), (1, near_lim)) if s_t == "Q" else weighted((1, qv()), (2, near_lim))
+  # the length is drawn first (st.lists alone, this deep inside a composite, gives an empty list a third of the time)
+  size = draw(st.sampled_from([0] + list(range(1, 17 if tier == "quick" else 41)) + [2, 3, 4, 5, 6, 8]))
+  x = [cast(v, s_t) for v in draw(st.lists(el, min_size=size, max_size=size))]
+  pre = None
+  if draw(st.sampled_from([True, False])):
+    pre = dict(limits=draw(st.sampled_from(["same", "same", "other"])),
+               low=draw(qv(-3, 3)), high=draw(qv(-3, 3)),
+               ops=draw(st.lists(_inplace(el.map(lambda v: cast(v, s_t))), min_size=draw(st.sampled_from([0, 1, 1, 1])), max_size=3)))
+  return dict(x=x, low=low, high=high, route=draw(_route), positional=draw(st.booleans()), pre=pre)
+
 
 def strat_clip(tier):
-  return st.fixed_dictionaries(dict(x=xs(tier), low=_lim, high=_lim, route=_route,
-                                    positional=st.booleans()))
+  return _clip_case(tier)
+
+
+def clip_ref(v, lo, hi):
+  if lo is not None and v < lo:
+    return lo
+  if hi is not None and v > hi:
+    return hi
+  return v
 
 
 def run_clip(case):
@@ -339,8 +470,47 @@ def run_clip(case):
     return clip(data, **kw)
 
   bad = lo is not None and hi is not None and hi < lo
+  labels = ["clip", "route:" + route]
+  # ---- the input: fresh data, or the very Stream an earlier clip call returned (same limits or others),
+  # possibly changed in place since (Stream.map / append / abs / skip / limit return the same object)
+  pre = None if bad else case.get("pre")
+  if pre:
+    if pre["limits"] == "same":
+      s0, lo0, hi0 = call(feed(x, route)), lo, hi
+    else:
+      lo0, hi0 = sorted([pre["low"], pre["high"]])
+      s0 = clip(feed(x, route), lo0, hi0)
+    y = [clip_ref(v, lo0, hi0) for v in x]
+    changed = False
+    for op in pre["ops"]:
+      before = list(y)
+      if op[0] == "map":
+        k, off = op[1], op[2]
+        r = s0.map(lambda v, k=k, off=off: k * v + off)
+        y = [k * v + off for v in y]
+      elif op[0] == "append":
+        r = s0.append(list(op[1]))
+        y = y + list(op[1])
+      elif op[0] == "abs":
+        r = abs(s0)
+        y = [abs(v) for v in y]
+      elif op[0] == "skip":
+        r = s0.skip(op[1])
+        y = y[op[1]:]
+      else:
+        r = s0.limit(op[1])
+        y = y[:op[1]]
+      if r is not s0:
+        raise Violation("oracle: Stream.%s is documented to work in place but returned another object" % op[0])
+      changed = changed or y != before
+    data, x = s0, y
+    labels += ["input: clip output", "earlier limits " + pre["limits"],
+               "changed in place since" if changed else "not changed since"]
+  else:
+    data = None
+    labels.append("input: fresh")
   try:
-    s = call(feed(x, route))
+    s = call(feed(x, route) if data is None else data)
   except ValueError:
     if bad:
       return {"nontrivial": False, "labels": ["clip", "high<low ValueError"]}
@@ -350,26 +520,45 @@ def run_clip(case):
   n = len(x)
   once = pulled(s, n, "clip")
   if len(once) != n:
-    raise Violation("clip: %d outputs for %d inputs" % (len(once), n))
+    raise Violation("clip: %d outputs for %d inputs (input %s)" % (len(once), n, labels[2:]))
   twice = pulled(call(list(once)), n, "clip")
   if twice != once:
-    raise Violation("clip is not idempotent: clip(x)=%r clip(clip(x))=%r (x=%r low=%r high=%r)"
-                    % (once, twice, x, lo, hi))
+    raise Violation("clip is not idempotent: clip(x)=%r clip(clip(x))=%r (x=%r low=%r high=%r; input %s: "
+                    "x is what that Stream held)" % (once, twice, x, lo, hi, labels[2:]))
+  # the same without a list in between: the Stream clip returned is handed to clip again
+  nested = pulled(call(call(feed(x, route))), n, "clip(clip(x))")
+  if nested != once:
+    raise Violation("clip is not idempotent: clip(x)=%r but clip(clip(x)) on the Stream itself = %r "
+                    "(x=%r low=%r high=%r)" % (once, nested, x, lo, hi))
   active = False
   for i, (v, o) in enumerate(zip(x, once)):
     if (lo is not None and o < lo) or (hi is not None and o > hi):
-      raise Violation("clip(x, low=%r, high=%r)[%d] = %r lies outside the limits (x[%d]=%r)"
-                      % (lo, hi, i, o, i, v))
+      raise Violation("clip(x, low=%r, high=%r)[%d] = %r lies outside the limits (x[%d]=%r; input %s)"
+                      % (lo, hi, i, o, i, v, labels[2:]))
     inside = (lo is None or v >= lo) and (hi is None or v <= hi)
     if inside and o != v:
-      raise Violation("clip(x, low=%r, high=%r)[%d] changed %r (already inside) to %r"
-                      % (lo, hi, i, v, o))
+      raise Violation("clip(x, low=%r, high=%r)[%d] changed %r (already inside) to %r (input %s)"
+                      % (lo, hi, i, v, o, labels[2:]))
     active = active or not inside
   lim = ("none" if lo is None else "low") + "/" + ("none" if hi is None else "high")
-  labels = ["clip", "limits:" + lim, "route:" + route]
+  labels.append("limits:" + lim)
   if active:
     labels.append("clip active")
-  return {"nontrivial": active and n >= 2, "labels": labels}
+  if x:
+    labels.append("samples:all Q" if all(isinstance(v, Q) for v in x) else "samples:int / plain Fraction among them")
+  labels += ["a limit of type " + _numtype(b) for b in (lo, hi) if b is not None]
+  for v in x:
+    for side, b in ((-1, lo), (1, hi)):
+      if b is None:
+        continue
+      d = (Fraction(v) - Fraction(b)) * side        # > 0: beyond this limit
+      if d == 0:
+        labels.append("sample on a limit")
+      elif abs(d) * 10 ** 15 < max(abs(Fraction(b)), 1):
+        labels.append("sample a hair off a limit")
+        if d > 0 and not isinstance(v, Q):
+          labels.append("sample a hair beyond a limit, no Q")
+  return {"nontrivial": active and n >= 2, "labels": sorted(set(labels))}
 
 
 # --------------------------------------------------------------------------
@@ -396,16 +585,31 @@ _fs = st.sampled_from([-3, 0, 2, 1, -1, Q(-1, 2), Q(1, 3), -0.5, 2.5, Q(0), 0.])
 _hpos = st.fractions(min_value=Fraction(1, 4), max_value=2, max_denominator=4).map(Q)
 _hyst = st.sampled_from(["pos", "pos", "pos", "default", "zero"]).flatmap(
   lambda k: _hpos if k == "pos" else
-  (st.just("default") if k == "default" else st.sampled_from([0, Q(0)])))
+  (st.just("default") if k == "default" else st.sampled_from([0, Q(0)])))      # cast to the drawn type later
+
+
+_H_T = ["Q", "Fraction", "int", "float", "float", "float"]
+
+
+@st.composite
+def _zcross_case(draw, tier):
+  """samples of type Q / plain Fraction / int, a hysteresis of type Q / Fraction / int / float (int and plain
+  Fraction do not absorb a float operand), samples on the thresholds and a hair (1e-17 .. 2**-70) beside them"""
+  s_t, h_t = draw(st.sampled_from(_S_T)), draw(st.sampled_from(_H_T))
+  hyst = draw(_hyst)
+  if not isinstance(hyst, str):
+    hyst = cast_lim(hyst, h_t)        # quarters: every value is a double; 'int' stays int only when integral
+  h = Fraction(0) if isinstance(hyst, str) else Fraction(hyst)
+  near = st.tuples(st.sampled_from([h, -h]), _hair).map(sum)
+  el = weighted((3, qv(-3, 3, 4)), (1, near)) if s_t == "Q" else weighted((1, qv(-3, 3, 4)), (1, near))
+  size = draw(st.sampled_from([0] + list(range(1, 17 if tier == "quick" else 41)) + [2, 3, 4, 5, 6, 8]))
+  x = [cast(v, s_t) for v in draw(st.lists(el, min_size=size, max_size=size))]
+  fs = draw(_fs) if draw(st.sampled_from([True, True, False])) else "default"
+  return dict(x=x, hyst=hyst, first_sign=fs, route=draw(_route))
 
 
 def strat_zcross(tier):
-  return st.fixed_dictionaries(dict(
-    x=st.lists(st.one_of(qv(-3, 3, 4), qv(-3, 3, 4), qv(-3, 3, 4), st.sampled_from(["+h", "-h"])),
-               max_size=16 if tier == "quick" else 40),
-    hyst=_hyst, first_sign=st.sampled_from(["given", "given", "default"]).flatmap(
-      lambda k: _fs if k == "given" else st.just("default")),
-    route=_route))
+  return _zcross_case(tier)
 
 
 def run_zcross(case):
@@ -431,6 +635,19 @@ def run_zcross(case):
     labels.append("sample inside band")
   if h > 0 and any(abs(v) == h for v in x):
     labels.append("sample on threshold")
+  if x and not all(isinstance(v, Q) for v in x):
+    labels.append("samples:int / plain Fraction among them")
+  labels.append("hysteresis of type " + _numtype(h))
+  hf = Fraction(h)
+  for v in x:
+    d = abs(Fraction(v)) - hf           # > 0: outside the band
+    if d != 0 and abs(d) * 10 ** 15 < max(hf, 1):
+      labels.append("sample a hair off a threshold")
+      if d > 0 and not isinstance(v, Q):
+        labels.append("sample a hair beyond a threshold, no Q")
+        if isinstance(h, float) and h:
+          labels.append("sample a hair beyond a float threshold, no Q")
+  labels = sorted(set(labels))
   return {"nontrivial": n >= 3 and ncross >= 1, "labels": labels}
 
 
@@ -620,10 +837,45 @@ def strat_long(tier):
     "zcross": dict(hyst=_hyst, first_sign=st.sampled_from(["default", 0, -3, 2, Q(1, 3)])),
     "unwrap": dict(max_delta=st.fractions(min_value=0, max_value=3, max_denominator=4).map(Q),
                    step=st.one_of(stepq, st.integers(1, 4)), args=st.sampled_from(["kw", "pos"])),
-    "clip": dict(low=_lim, high=_lim, positional=st.booleans())}
+    "clip": dict(low=_lim, high=_lim, positional=st.booleans()),
+    "envelope": dict(cutoff=st.one_of(st.none(), _cut),
+                     strategy=st.sampled_from(["abs", "squared", "rms", "abs", "squared", "default"]))}
   # the tool is drawn first (a one_of over dictionaries of different sizes is not evenly weighted)
-  return st.sampled_from(["maverage"] * 4 + ["amdf"] * 3 + ["accumulate", "zcross", "unwrap", "clip"]).flatmap(
+  return st.sampled_from(["maverage"] * 4 + ["amdf"] * 3 + ["envelope"] * 2 + ["accumulate", "zcross", "unwrap", "clip"]).flatmap(
     lambda tool: st.fixed_dictionaries(dict(base, tool=st.just(tool), **extra[tool])))
+
+
+def long_envelope(case, labels):
+  """envelope over thousands of int samples: the library then works in double precision, and so does the oracle
+  (the documented one-pole recursion); compared within 1e-9 * max(1, peak of the rectified input); rms by its square"""
+  n, route, name, cutoff = case["n"], case["route"], case["strategy"], case["cutoff"]
+  x = long_signal(case["seed"], n, case["ipalette"])
+  labels = [lb for lb in labels if not lb.startswith("kind:")] + ["kind:int", "envelope (float oracle)"]
+  cut = math.pi / 512 if cutoff is None else cutoff
+  xx = 2 - math.cos(cut)
+  R = xx - math.sqrt(xx ** 2 - 1)
+  g = 1 - R
+  fn = envelope if name == "default" else getattr(envelope, name)
+  kind = "rms" if name == "default" else name
+  positional = cutoff is not None and case["seed"] % 2 == 1
+  got = pulled(fn(feed(x, route), cutoff) if positional else
+               fn(feed(x, route), **({} if cutoff is None else {"cutoff": cutoff})), n, "envelope." + name)
+  what = "x = long_signal(%d, %d, %r)" % (case["seed"], n, case["ipalette"])
+  if len(got) != n:
+    raise Violation("envelope.%s: %d outputs for %d inputs (%s)" % (name, len(got), n, what))
+  peak = max(abs(v) for v in x)
+  peak = float(peak if kind == "abs" else peak * peak)
+  tol = 1e-9 * max(1., peak)
+  y = 0.
+  for i, v in enumerate(x):
+    y = g * float(abs(v) if kind == "abs" else v * v) + R * y
+    o = got[i] * got[i] if kind == "rms" else got[i]
+    if not abs(o - y) <= tol:
+      raise Violation("envelope.%s(x, cutoff=%r)[%d] = %r, one-pole low-pass (R=%r) of %s gives %r (%s)"
+                      % (name, cut, i, got[i], R, "|x|" if kind == "abs" else "x^2",
+                         math.sqrt(y) if kind == "rms" else y, what))
+  labels.append("envelope." + kind)
+  return {"nontrivial": any(v != x[0] for v in x) and 0 < R < 1, "labels": labels}
 
 
 def run_long(case):
@@ -637,6 +889,8 @@ def run_long(case):
     sub["x"] = x
     res = {"accumulate": run_accumulate, "zcross": run_zcross, "unwrap": run_unwrap, "clip": run_clip}[tool](sub)
     return {"nontrivial": res["nontrivial"], "labels": labels}
+  if tool == "envelope":
+    return long_envelope(case, labels)
   # ---- maverage (every strategy) / amdf
   if kind == "int":      # ints with a power-of-two window: the library's float arithmetic is exact
     size = 2 ** case["log2size"]
@@ -688,22 +942,36 @@ CLAUSES = [
          doc="maverage.deque/recursive/fir/default == fl(1/size)*sum(last size samples, earlier = zero) "
              "(exact when zero=0 or size=2^k) and == true mean within 1e-12"),
   Clause("accumulate", strat_accumulate, run_accumulate, quick=800, thorough=16000,
-         floors={"empty input": .02, "Q samples": .25, "int samples": .05},
-         doc="accumulate.itertools/func/z == running sums; empty in -> empty out"),
+         floors={"empty input": .02, "Q samples": .2, "int samples": .04, "plain Fraction samples": .05,
+                 "big int samples": .05},
+         doc="accumulate.itertools/func/z == running sums; empty in -> empty out; Q, small int, plain Fraction and "
+             "int samples beyond 2**53 (exact, except z with its default float memory on the last two: 1e-12)"),
   Clause("amdf", strat_amdf, run_amdf, quick=800, thorough=16000,
-         floors={"lag<size": .1, "lag>size": .1, "zero!=0": .1},
-         doc="amdf(lag,size) == moving average of |x[n]-x[n-lag]|, x[<0]=zero"),
+         floors={"lag<size": .1, "lag>size": .1, "zero!=0": .1, "one object, several signals": .3},
+         doc="amdf(lag,size) == moving average of |x[n]-x[n-lag]|, x[<0]=zero; one amdf object on two signals "
+             "read alternately and then on the first again"),
   Clause("envelope", strat_envelope, run_envelope, quick=900, thorough=18000,
          floors={"envelope.rms": .08, "envelope.abs": .1, "envelope.squared": .08, "cutoff given": .1},
          doc="envelope.abs/squared == one-pole low-pass of |x| / x^2 exactly (R recomputed); rms = sqrt within 1e-12"),
   Clause("clip", strat_clip, run_clip, quick=800, thorough=16000,
-         floors={"clip active": .2, "high<low ValueError": .02, "limits:none/none": .03,
-                 "limits:low/none": .02, "limits:none/high": .03, "limits:low/high": .1},
-         doc="clip idempotent, within non-None limits, identity inside; ValueError iff high<low"),
+         floors={"clip active": .2, "high<low ValueError": .02, "limits:none/none": .015,
+                 "limits:low/none": .02, "limits:none/high": .02, "limits:low/high": .1,
+                 "input: clip output": .08, "changed in place since": .05, "earlier limits same": .05,
+                 "earlier limits other": .012, "samples:int / plain Fraction among them": .12,
+                 "a limit of type float": .1, "a limit of type int": .02, "a limit of type Fraction": .05,
+                 "sample a hair off a limit": .03, "sample a hair beyond a limit, no Q": .012},
+         doc="clip idempotent (through a list and on the returned Stream itself), within non-None limits, identity "
+             "inside; ValueError iff high<low; samples and limits of type Q / int / plain Fraction / float (limits), "
+             "samples on and a hair beside the limits; the input may be the Stream an earlier clip call returned "
+             "(same or other limits), changed in place since by map / append / abs / skip / limit"),
   Clause("zcross", strat_zcross, run_zcross, quick=1000, thorough=20000,
          floors={"crossing": .15, "first_sign given": .15, "first_sign=0": .1, "hysteresis>0": .2,
-                 "hysteresis=0": .08, "sample inside band": .08, "sample on threshold": .06},
-         doc="zcross == zcross_ref state machine; one output per input"),
+                 "hysteresis=0": .08, "sample inside band": .08, "sample on threshold": .06,
+                 "samples:int / plain Fraction among them": .15, "hysteresis of type float": .06,
+                 "hysteresis of type Fraction": .06, "sample a hair off a threshold": .05,
+                 "sample a hair beyond a threshold, no Q": .03, "sample a hair beyond a float threshold, no Q": .015},
+         doc="zcross == zcross_ref state machine; one output per input; samples Q / int / plain Fraction, hysteresis "
+             "Q / int / Fraction / float, samples on the thresholds and a hair (1e-17..2**-70) beside them"),
   Clause("unwrap", strat_unwrap, run_unwrap, quick=1000, thorough=20000,
          floors={"corrected": .15, "no jump": .1, "several jumps": .15, "diff on max_delta": .05},
          doc="unwrap: out-x multiples of step, identity without jumps, adjacent output jump <= max(max_delta, step/2)"),
@@ -713,10 +981,11 @@ CLAUSES = [
                  "jump on half-step tie": .08, "max_delta<step/2": .15, "corrected": .3},
          doc="unwrap on int / plain Fraction / Q samples and parameters (types that do not absorb a float), with "
              "jumps beyond 2**53 and jumps on or a hair (1e-17..2**-70) off a half-step tie: same three assertions, exact"),
-  Clause("long_inputs", strat_long, run_long, quick=120, thorough=1200,
-         floors={"tool:maverage": .12, "tool:amdf": .08, "kind:Q": .1, "kind:int": .25, "n>=1280": .4,
-                 "n>=40*size": .15, "size>32": .03},
+  Clause("long_inputs", strat_long, run_long, quick=140, thorough=1400,
+         floors={"tool:maverage": .12, "tool:amdf": .08, "tool:envelope": .05, "kind:Q": .08, "kind:int": .25,
+                 "n>=1280": .4, "n>=40*size": .15, "size>32": .03},
          doc="inputs of 1000..4000 (thorough ..12000) samples, given as (seed, palette): every maverage strategy and "
              "amdf against sliding exact window sums (windows up to 80 / 200 samples; ints with 2^k windows, Q with any), "
-             "and accumulate / zcross / unwrap / clip through their short-input oracles"),
+             "and accumulate / zcross / unwrap / clip through their short-input oracles; envelope (every strategy) on "
+             "int samples against the one-pole recursion in double precision (1e-9)"),
 ]
